@@ -151,3 +151,23 @@ Example sourcemap_text_ex :
 Proof.
   split; [repeat constructor; lia|]. split; [repeat constructor; lia|]. split; vm_compute; reflexivity.
 Qed.
+(* join_all_decodes / pipeline_exact with a null entry between two files on one
+   line: the null mapping sits at the column where the first file's text ended
+   (9), the second file starts 3 columns further; hypotheses hold *)
+From V Require C07.JoinNullProofs C07.PipelineNull.
+Example join_null_ex :
+  let f1 := mkJfile [OMap 0 0 0 0 None; OMap 4 0 0 4 (Some 0)] 1 9 (0, 0) 7 in
+  let f2 := mkJfile [OMap 1 0 2 0 None; ONewline; OMap 0 0 3 0 None] 0 5 (0, 3) 5 in
+  let items := [JoinNullProofs.JFile f1; JoinNullProofs.JNull 6; JoinNullProofs.JFile f2] in
+  Forall JoinNullProofs.item_ok items /\
+  JoinNullProofs.joined_abs_i [(7, 0); (5, 1)] items (0, 0) 0 =
+    [mkAbs 0 0 (Some (0, 0, 0)) None; mkAbs 0 4 (Some (0, 0, 4)) (Some 0); mkAbs 0 9 None None;
+     mkAbs 0 13 (Some (1, 2, 0)) None; mkAbs 1 0 (Some (1, 3, 0)) None] /\
+  join_all (map JoinNullProofs.res_of_item items) =
+    Some (emit_bytes (JoinNullProofs.joined_ops_i [(7, 0); (5, 1)] items 0 0)).
+Proof.
+  split; [|vm_compute; split; reflexivity].
+  repeat constructor; cbn [fst f_off]; try lia.
+  - exists 0%nat, 0, 0, 0, 0, None, [OMap 4 0 0 4 (Some 0)]. reflexivity.
+  - exists 0%nat, 1, 0, 2, 0, None, [ONewline; OMap 0 0 3 0 None]. reflexivity.
+Qed.
